@@ -14,6 +14,11 @@
 //   no <vt> <sel> <bw> <w> <h> | planes          fill, normalize -> "key:count:bits-of-normalized-double ..." sorted
 //   cn <vt> <sel> <bw> <mode> <w> <h> | planes   fill, make the bins fractional (mode q: every bin * 0.25; mode n: normalize()), then
 //        cumulative_histogram -> sorted "key:value" with value*4 (q, exact) or round(value * 2^20) (n)
+//   ns <vt> <sel> <bw> <mode> <w> <h> | planes A | planes B     multi-step sequences on fractional bins; mode:
+//        s  : fill(A), normalize, sum()                       nn : fill(A), normalize, normalize
+//        na : fill(A), normalize, fill(B, accumulate), normalize
+//        qs : fill(A), every bin * 0.25, sum()                 qn : fill(A), every bin * 0.25, normalize
+//     -> "S=<round(sum() * 2^20)> | key:<round(bin * 2^20)> ..." of the final state ("inf"/"nan" for non-finite values); qs prints sum()*4 and bin*4
 //   sv <vt1> <vt2> <w> <h> <presize> | initial vector (presize entries) | plane 1 | plane 2      std::vector<int> two-step sequence:
 //        v = initial; if vt1 != "-": fill_histogram(view1, v) ; then fill_histogram(view2, v, /*accumulate*/ true) -> "size : i:count ..."
 //   st <vt> <w> <h> | plane                      gray8/gray16: vector<int>, map<int,int>, array<int,256> (g8), sparse -> four sorted lists
@@ -142,6 +147,31 @@ template <class Img, std::size_t N, std::size_t... D> std::string cn_sel(Op cons
     }
     return r;
 }
+static std::string q20s(double v, bool quarter) {
+    if (std::isnan(v)) return "nan"; if (std::isinf(v)) return "inf";
+    return std::to_string((ll)(quarter ? v * 4.0 : std::floor(v * 1048576.0 + 0.5)));
+}
+template <class Img, std::size_t N, std::size_t... D> std::string ns_sel(Op const& op, std::index_sequence<D...>) {
+    auto const& hd = op.head; std::size_t bw = (std::size_t)hv::to_ll(hd[3]); std::string mode = hd[4]; ll w = hv::to_ll(hd[5]), h = hv::to_ll(hd[6]);
+    constexpr int NC = gil::num_channels<typename Img::view_t>::value;
+    Buf<Img> a(w, h), b(w, h); load(a.v, op.groups, 0); load(b.v, op.groups, NC);
+    typename Img::const_view_t av(a.v), bv(b.v);
+    typename hist_of<N>::type hist; gil::fill_histogram<D...>(av, hist, bw);
+    bool quarter = false;
+    if (mode == "s") hist.normalize();
+    else if (mode == "nn") { hist.normalize(); hist.normalize(); }
+    else if (mode == "na") { hist.normalize(); gil::fill_histogram<D...>(bv, hist, bw, true); hist.normalize(); }
+    else if (mode == "qs") { for (auto& kv : hist) kv.second *= 0.25; quarter = true; }
+    else if (mode == "qn") { for (auto& kv : hist) kv.second *= 0.25; hist.normalize(); }
+    else return "bad-op";
+    double total = hist.sum();
+    using key_t = typename hist_of<N>::type::key_type;
+    std::vector<std::pair<key_t, double>> v(hist.begin(), hist.end());
+    std::sort(v.begin(), v.end(), [](auto const& x, auto const& y) { return x.first < y.first; });
+    std::string r = "S=" + q20s(total, quarter) + " |";
+    for (auto const& kv : v) r += " " + key_str(kv.first, std::make_index_sequence<N>{}) + ":" + q20s(kv.second, quarter);
+    return r;
+}
 template <class Img, std::size_t... A> std::string sa_axes(Op const& op, std::index_sequence<A...>) {
     auto const& hd = op.head; std::size_t bw = (std::size_t)hv::to_ll(hd[3]); ll w = hv::to_ll(hd[4]), h = hv::to_ll(hd[5]);
     constexpr int NC = gil::num_channels<typename Img::view_t>::value;
@@ -174,10 +204,11 @@ template <class Img, int NC> struct dispatch;
     template <class Img> static std::string FN(Op const& op, std::string const& sel, std::integral_constant<int, 4>) { \
         if (sel == "all") return FN##_sel<Img, 4>(op, std::index_sequence<>{}); if (sel == "3") return FN##_sel<Img, 1>(op, std::index_sequence<3>{}); \
         if (sel == "12") return FN##_sel<Img, 2>(op, std::index_sequence<1, 2>{}); return "bad-op"; }
-struct D { DISPATCH_BODY(fh) DISPATCH_BODY(cu) DISPATCH_BODY(no) DISPATCH_BODY(cn) };
+struct D { DISPATCH_BODY(fh) DISPATCH_BODY(cu) DISPATCH_BODY(no) DISPATCH_BODY(cn) DISPATCH_BODY(ns) };
 
 template <class Img> std::string by_channels_fh(Op const& op) { return D::fh<Img>(op, op.head[2], std::integral_constant<int, gil::num_channels<typename Img::view_t>::value>{}); }
 template <class Img> std::string by_channels_cu(Op const& op) { return D::cu<Img>(op, op.head[2], std::integral_constant<int, gil::num_channels<typename Img::view_t>::value>{}); }
+template <class Img> std::string by_channels_ns(Op const& op) { return D::ns<Img>(op, op.head[2], std::integral_constant<int, gil::num_channels<typename Img::view_t>::value>{}); }
 template <class Img> std::string by_channels_cn(Op const& op) { return D::cn<Img>(op, op.head[2], std::integral_constant<int, gil::num_channels<typename Img::view_t>::value>{}); }
 template <class Img> std::string by_channels_no(Op const& op) { return D::no<Img>(op, op.head[2], std::integral_constant<int, gil::num_channels<typename Img::view_t>::value>{}); }
 
@@ -238,12 +269,21 @@ static std::string sv(Op const& op) {
 }
 using d2_8_img = gil::image<gil::pixel<std::uint8_t, gil::devicen_layout_t<2>>>;
 
-#define VT(F, ...) \
+#define VT_GRAY(F, ...) \
     if (vt == "g8") return F<gil::gray8_image_t>(__VA_ARGS__); if (vt == "g8s") return F<gil::gray8s_image_t>(__VA_ARGS__); \
-    if (vt == "g16") return F<gil::gray16_image_t>(__VA_ARGS__); if (vt == "g16s") return F<gil::gray16s_image_t>(__VA_ARGS__); \
+    if (vt == "g16") return F<gil::gray16_image_t>(__VA_ARGS__); if (vt == "g16s") return F<gil::gray16s_image_t>(__VA_ARGS__);
+#define VT_MULTI(F, ...) \
     if (vt == "d2_8") return F<d2_8_img>(__VA_ARGS__); if (vt == "rgb8") return F<gil::rgb8_image_t>(__VA_ARGS__); \
     if (vt == "rgb8s") return F<gil::rgb8s_image_t>(__VA_ARGS__); if (vt == "rgb16") return F<gil::rgb16_image_t>(__VA_ARGS__); \
     if (vt == "rgba8") return F<gil::rgba8_image_t>(__VA_ARGS__);
+// each translation unit serves the gray view types (…_G) or the multi-channel ones (…_M) of one op family
+#if defined(HALF_G)
+#define VT(F, ...) VT_GRAY(F, __VA_ARGS__)
+#elif defined(HALF_M)
+#define VT(F, ...) VT_MULTI(F, __VA_ARGS__)
+#else
+#define VT(F, ...) VT_GRAY(F, __VA_ARGS__) VT_MULTI(F, __VA_ARGS__)
+#endif
 #define VTM(F) \
     if (vt == "d2_8") return F<d2_8_img>(op, std::integral_constant<int, 2>{}); if (vt == "rgb8") return F<gil::rgb8_image_t>(op, std::integral_constant<int, 3>{}); \
     if (vt == "rgb8s") return F<gil::rgb8s_image_t>(op, std::integral_constant<int, 3>{}); if (vt == "rgb16") return F<gil::rgb16_image_t>(op, std::integral_constant<int, 3>{}); \
@@ -262,7 +302,12 @@ int main() {
 #ifdef PT_B
         if (h[0] == "cu" && h.size() == 6) { VT(by_channels_cu, op) return "bad-op"; }
         if (h[0] == "no" && h.size() == 6) { VT(by_channels_no, op) return "bad-op"; }
+#endif
+#ifdef PT_D
         if (h[0] == "cn" && h.size() == 7) { VT(by_channels_cn, op) return "bad-op"; }
+#endif
+#ifdef PT_E
+        if (h[0] == "ns" && h.size() == 7) { VT(by_channels_ns, op) return "bad-op"; }
 #endif
 #ifdef PT_C
         if (h[0] == "sa" && h.size() == 6) { VTM(sa) return "bad-op"; }
